@@ -1,6 +1,7 @@
 import CppUModel.Base.Proto
 import CppUModel.Model.SimpleStringOps
 import CppUModel.Spec.TextExt
+import CppUModel.Gen.StringPrims
 /-!
 Driver for C13: replays harness traces through the `SimpleString` model (`SStr.step`) and judges
 the implementation's observations with the specification oracle: the textbook definitions of
@@ -151,14 +152,80 @@ def renderEv : Ev → String
   | .vsn size ret text => s!"vsn {size} {ret} " ++ Proto.hex text
   | .out l => l
 
+/-- The primitives as REGENERATED from the source on this run (`Gen/StringPrims.lean`), executed on the same
+    operands as the hand-written model, rendered like the model's observation lines.  `Props/C13.lean` proves the
+    two equal (`gen_…_is_model`); here the regenerated code is also RUN, so a translator defect or a source change
+    shows up as a `gen-differs` line in the model's trace (= a disagreement with the implementation's trace). -/
+def genPrimLines (o : Op) : Option (List String) :=
+  let r {α} (e : Except Err α) (f : α → String) : List String :=
+    match e with
+    | .ok a => [f a]
+    | .error e => ["error " ++ e.render]
+  let nat (n : Nat) : String := if n = npos then "ret npos" else s!"ret {n}"
+  let int (i : Int) : String := s!"ret {i}"
+  match o with
+  | .strlen h => some (r (Gen.StrPrims.StrLen (h.length + 1) h 0) nat)
+  | .strcmp h1 h2 => some (r (Gen.StrPrims.StrCmp (h1.length + 1) h1 0 h2 0) int)
+  | .strncmp h1 h2 n => some (r (Gen.StrPrims.StrNCmp (n + 1) h1 0 h2 0 n) int)
+  | .strncpy none s n => some (r (Gen.StrPrims.StrNCpy (n + 1) true [] 0 s 0 n) fun p =>
+      match p.1 with | none => "ret null" | some i => s!"ret {i}")
+  | .strncpy (some d) s n => some (r (Gen.StrPrims.StrNCpy (n + 1) false d 0 s 0 n) fun p =>
+      match p.1 with | some 0 => "buf " ++ Proto.hex p.2 | _ => "buf " ++ Proto.hex p.2 ++ " returned-pointer-is-not-dst")
+  | .strstr h1 h2 => some (r (Gen.StrPrims.StrStr (max h1.length h2.length + 1) h1 0 h2 0) fun x =>
+      match x with | some i => s!"ret {i}" | none => "ret null")
+  | .memcmp h1 h2 n => some (r (Gen.StrPrims.MemCmp (n + 1) h1 0 h2 0 n) int)
+  | .atoi h => some (r (Gen.StrPrims.AtoI (h.length + 1) h 0) int)
+  | .atou h => some (r (Gen.StrPrims.AtoU (h.length + 1) h 0) nat)
+  | .tolower c => some ["ret " ++ Proto.hex [Gen.StrPrims.ToLower c]]
+  | _ => none
+
+/-- all 256 bytes: the five regenerated character classes and `ToLower` against the hand-written ones -/
+def classDiffs : List String :=
+  (List.range 256).filterMap fun n =>
+    let c := UInt8.ofNat n
+    if Gen.StrPrims.isDigit c == CStr.isDigit c && Gen.StrPrims.isSpace c == CStr.isSpace c &&
+       Gen.StrPrims.isUpper c == CStr.isUpper c && Gen.StrPrims.isControl c == CStr.isControl c &&
+       Gen.StrPrims.isControlWithShortEscapeSequence c == CStr.isControlWithShortEscapeSequence c &&
+       Gen.StrPrims.ToLower c == CStr.ToLower c then none
+    else some (Proto.hexByte c)
+
+/-- the allocation-free methods as regenerated (`Gen.StrPrims.m_*`), on the buffers of the live objects -/
+def genMethodLines (st : Store) (o : Op) : Option (List String) :=
+  let r {α} (e : Except Err α) (f : α → String) : List String :=
+    match e with
+    | .ok a => [f a]
+    | .error e => ["error " ++ e.render]
+  let nat (n : Nat) : String := if n = npos then "ret npos" else s!"ret {n}"
+  let bool (b : Bool) : String := if b then "ret 1" else "ret 0"
+  let fuel2 (x y : Obj) : Nat := max x.buf.length y.buf.length + 1
+  match o with
+  | .size a => (st.get? a).map fun x => r (Gen.StrPrims.m_size (x.buf.length + 1) x.buf) nat
+  | .isempty a => (st.get? a).map fun x => r (Gen.StrPrims.m_isEmpty (x.buf.length + 1) x.buf) bool
+  | .at a p => (st.get? a).map fun x => r (Gen.StrPrims.m_at (x.buf.length + 1) x.buf p) fun c => "ret " ++ Proto.hex [c]
+  | .find a c => (st.get? a).map fun x => r (Gen.StrPrims.m_find (x.buf.length + 1) x.buf c) nat
+  | .findfrom a p c => (st.get? a).map fun x => r (Gen.StrPrims.m_findFrom (x.buf.length + 1) x.buf p c) nat
+  | .contains a b => do let x ← st.get? a; let y ← st.get? b; pure (r (Gen.StrPrims.m_contains (fuel2 x y) x.buf y.buf) bool)
+  | .starts a b => do let x ← st.get? a; let y ← st.get? b; pure (r (Gen.StrPrims.m_startsWith (fuel2 x y) x.buf y.buf) bool)
+  | .ends a b => do let x ← st.get? a; let y ← st.get? b; pure (r (Gen.StrPrims.m_endsWith (fuel2 x y) x.buf y.buf) bool)
+  | _ => none
+
+def withGen (st : Store) (o : Op) (model : List String) : List String :=
+  let cls : List String :=
+    match o with
+    | .junk _ => if classDiffs.isEmpty then [] else ["gen-differs character-class " ++ " ".intercalate classDiffs]
+    | _ => []
+  match (genPrimLines o).orElse (fun _ => genMethodLines st o) with
+  | none => model ++ cls
+  | some g => if g == model then model else model ++ ["gen-differs " ++ " | ".intercalate g]
+
 def modelStep (d : DState) (op : List String) (obs : List (List String)) : DState × List String :=
   match parseOp op with
   | none => (d, ["bad-op"])
   | some o =>
     let w : World := { next := d.next, log := [], junk := d.junk, vsn := vsnOfObs obs }
     match step d.store o w with
-    | .ok (st, w') => ({ store := st, next := w'.next, junk := w'.junk }, w'.log.map renderEv)
-    | .error e => (d, ["error " ++ e.render])
+    | .ok (st, w') => ({ store := st, next := w'.next, junk := w'.junk }, withGen d.store o (w'.log.map renderEv))
+    | .error e => (d, withGen d.store o ["error " ++ e.render])
 
 /-! ## specification oracle (implementation's observations only) -/
 
